@@ -60,7 +60,7 @@ Feats == [dup : BOOLEAN, move : BOOLEAN, multi : BOOLEAN, nested : BOOLEAN]
 B(id, name, cls, parent, initial) ==
   [id |-> id, qid |-> id, name |-> name, cls |-> cls, parent |-> parent, priv |-> "PUBLIC", incontents |-> TRUE, inall |-> TRUE,
    bases |-> <<>>, mro |-> IF cls = "Class" THEN <<id>> ELSE <<>>, subclasses |-> {}, doc |-> TRUE, docsrc |-> id,
-   xrefs |-> {}, sumrefs |-> {}, annrefs |-> {}, initial |-> initial, dupname |-> FALSE, dupfull |-> FALSE]
+   xrefs |-> {}, sumrefs |-> {}, annrefs |-> {}, sigrefs |-> {}, initial |-> initial, dupname |-> FALSE, dupfull |-> FALSE]
 
 SkelObjs(f) ==
   {  B("pk", "pk", "Package", None, "P"),
@@ -99,7 +99,10 @@ SkelObjs(f) ==
           !.xrefs = {"pk.mod.Sub"} \cup (IF f.move THEN {"pk.Moved"} ELSE {}),
           !.sumrefs = {"pk.mod.Sub"} \cup (IF f.move THEN {"pk.Moved"} ELSE {})] }
   \cup (IF f.nested THEN
-     { B("pk.mod.Sub.Inner", "Inner", "Class", "pk.mod.Sub", "I"),
+     \* class Sub: Tag = TypeVar("Tag"); class Inner(Generic[Tag]): the base is external, its argument Tag is a class-level
+     \* attribute of the ENCLOSING class, linked from the class header of Inner (sigrefs)
+     { B("pk.mod.Sub.Tag", "Tag", "Attribute", "pk.mod.Sub", "T"),
+       [B("pk.mod.Sub.Inner", "Inner", "Class", "pk.mod.Sub", "I") EXCEPT !.bases = <<None>>, !.sigrefs = {"pk.mod.Sub.Tag"}],
        [B("pk.mod.Sub.Inner.im", "im", "Function", "pk.mod.Sub.Inner", "I") EXCEPT !.doc = FALSE] } ELSE {})
   \cup (IF f.dup THEN      \* class Dup defined twice in pk/mod.py: the older one becomes "Dup 0" (model.py:1381)
      { [B("pk.mod.Dup 0", "Dup 0", "Class", "pk.mod", "D") EXCEPT !.incontents = FALSE, !.dupname = TRUE, !.dupfull = TRUE,
@@ -107,10 +110,14 @@ SkelObjs(f) ==
        [B("pk.mod.Dup 0.a", "a", "Function", "pk.mod.Dup 0", "A") EXCEPT !.dupfull = TRUE, !.doc = FALSE, !.qid = "pk.mod.Dup%200.a"],
        B("pk.mod.Dup", "Dup", "Class", "pk.mod", "D"),
        [B("pk.mod.Dup.b", "b", "Function", "pk.mod.Dup", "B") EXCEPT !.doc = FALSE] } ELSE {})
-  \cup (IF f.move THEN     \* pk/__init__.py: from pk._impl import Moved; __all__ = ['Moved']  (re-export move)
+  \cup (IF f.move THEN     \* pk/__init__.py: from pk._impl import Moved, mf; __all__ = ['Moved', 'mf']  (re-export move)
+     \* mf(x=1) and Moved.mm(self, n=1) have a default value (their docstring linker exists since AST time, before the
+     \* move) and their docstrings refer to helper, which stays in pk._impl
      { [B("pk._impl", "_impl", "Module", "pk", "_") EXCEPT !.priv = "PRIVATE"],
+       B("pk._impl.helper", "helper", "Function", "pk._impl", "H"),
+       [B("pk.mf", "mf", "Function", "pk", "M") EXCEPT !.xrefs = {"pk._impl.helper"}, !.sumrefs = {"pk._impl.helper"}],
        B("pk.Moved", "Moved", "Class", "pk", "M"),
-       B("pk.Moved.mm", "mm", "Function", "pk.Moved", "M") } ELSE {})
+       [B("pk.Moved.mm", "mm", "Function", "pk.Moved", "M") EXCEPT !.xrefs = {"pk._impl.helper"}, !.sumrefs = {"pk._impl.helper"}] } ELSE {})
   \cup (IF f.multi THEN    \* a second root: module m2 with a subclass of pk.mod.Base
      { B("m2", "m2", "Module", None, "M"),
        [B("m2.K", "K", "Class", "m2", "K") EXCEPT !.bases = <<"pk.mod.Base">>, !.mro = <<"m2.K", "pk.mod.Base">>],
@@ -139,7 +146,7 @@ Skeleton(f, assign, d) ==
 (***************************************************************************)
 Norm(o) == [id |-> o.id, qid |-> o.qid, name |-> o.name, cls |-> o.cls, parent |-> o.parent, priv |-> o.priv,
             incontents |-> o.incontents, inall |-> o.inall, bases |-> o.bases, mro |-> o.mro, subclasses |-> Range(o.subclasses),
-            doc |-> o.doc, docsrc |-> o.docsrc, xrefs |-> {}, sumrefs |-> {}, annrefs |-> {},
+            doc |-> o.doc, docsrc |-> o.docsrc, xrefs |-> {}, sumrefs |-> {}, annrefs |-> {}, sigrefs |-> {},
             initial |-> o.initial, dupname |-> o.dupname, dupfull |-> o.dupfull]
 FromProjection(c) == [objs |-> [i \in DOMAIN c.objs |-> Norm(c.objs[i])], roots |-> c.roots, depth |-> c.depth]
 
@@ -230,7 +237,10 @@ BaseName(p, pf) == IF IsCls(p)                                                  
                    THEN {L(pf, Url(b), "baseName") : b \in Linkable({Mro(p)[j] : j \in {j \in 2..Len(Mro(p)) : \E k \in BaseIdx(p) : j = k \/ (2 <= j /\ j < k)}})}
                    ELSE {}
 ClassSignature(p, pf) == IF IsCls(p)                                                                  \* :68 format_class_signature
-                         THEN {L(pf, Url(b), "classSignature") : b \in Linkable({b \in Range(Objs[p].bases) : b \in Ids})} ELSE {}
+                         THEN {L(pf, Url(b), "classSignature") : b \in Linkable({b \in Range(Objs[p].bases) : b \in Ids})}
+                              \* names inside the base expressions: _AnnotationLinker(cls) under switch_context(cls)
+                              \cup {L(pf, TagLink(t, FileOf(p), pf), "classSignature") : t \in Linkable(Objs[p].sigrefs)}
+                         ELSE {}
 Subclasses(p, pf) == IF IsCls(p)                                                                      \* :465 assembleList filters on isVisible
                      THEN {L(pf, Url(s), "subclasses") : s \in {s \in Objs[p].subclasses : s \in Ids /\ Vis(s)}} ELSE {}
 \* :517 get_override_info, called for the class itself and for every member shown (objectExtras)
@@ -238,11 +248,9 @@ Overridden(p, nm) == LET ks == {k \in 2..Len(Mro(p)) : Mro(p)[k] \in Ids /\ nm \
                      IN IF ks = {} THEN {}
                         ELSE LET k == CHOOSE k \in ks : \A k2 \in ks : k <= k2
                              IN {c \in Contents(Mro(p)[k]) : Objs[c].name = nm}
-\* pages/__init__.py:517 the "overrides X" note is written whatever the visibility of X (taglink only drops the link);
-\* with the fix of overrides-note-names-hidden-member it is skipped for a hidden X
+\* pages/__init__.py:517 the "overrides X" note is written only for a visible X
 OverridesNoted(p) == IF IsCls(p)
-                     THEN {c \in UNION {Overridden(p, Objs[x].name) : x \in Methods(p) \cup {p}} :
-                             Fx("overrides-note-names-hidden-member") => Vis(c)}
+                     THEN {c \in UNION {Overridden(p, Objs[x].name) : x \in Methods(p) \cup {p}} : Vis(c)}
                      ELSE {}
 Overrides(p, pf) == IF IsCls(p)                                                                       \* no visibility test
                     THEN {L(pf, PL(c, p), "overrides") : c \in Linkable(OverridesNoted(p))} ELSE {}
@@ -506,6 +514,9 @@ Cov == {Fact("member", Objs[i].parent, i) : i \in {i \in Ids : Objs[i].parent # 
        \cup UNION {UNION {{Fact("overrides", x, c) : c \in Overridden(p, Objs[x].name)} : x \in Contents(p)} : p \in {p \in Ids : IsCls(p)}}
        \cup UNION {UNION {{[rel |-> "inherited2", a |-> Eff(Mro(p)[k]), b |-> Eff(c)] : c \in Contents(Mro(p)[k])} : k \in {k \in 3..Len(Mro(p)) : Mro(p)[k] \in Ids}} : p \in {p \in Ids : IsCls(p)}}
        \cup {[rel |-> "root", a |-> Eff(r), b |-> IF Multi THEN "multi" ELSE "single"] : r \in Range(Roots)}
+       \cup {[rel |-> "feature", a |-> x, b |-> IF M.depth > 1 THEN "expanded" ELSE "flat"] :
+                 x \in {x \in {"dup", "move", "multi", "nested"} : (x = "dup" /\ feat.dup) \/ (x = "move" /\ feat.move)
+                                                                   \/ (x = "multi" /\ feat.multi) \/ (x = "nested" /\ feat.nested)}}
 EnumOut == LET P == Pred  V == PredView IN
            [feat |-> feat, depth |-> depth, nd |-> nd, nobjs |-> Cardinality(Ids), npages |-> Cardinality(ObjPages),
             nlinks |-> Cardinality(P.links), sig |-> Sig(Verdict(V, P, Multi)), cov |-> Cov]
